@@ -5,6 +5,8 @@
 // which stay as regression streams). All of it runs on ONE real interpreter per scenario run (shared subinclude cache): package B alone,
 // A then B, B then A, and A and B concurrently. Oracle: B's globals do not depend on A, and nothing a package
 // computed changes when the other package runs afterwards.
+// Follow-up streams (followup.go): fresh-making operations on imports followed by a write, private (underscore) names
+// of a build_defs file, and a direct probe of scope.Freeze's coverage over name spellings.
 package main
 
 import (
@@ -203,7 +205,8 @@ func coqOutcome(res aspgen.Result) string {
 func main() {
 	gologging.SetLevel(gologging.CRITICAL, "plz")
 	lib.Main("C17", func(c *lib.Ctx) {
-		c.Model("From PlzV Require Import Model.C16_Syntax Model.C16_Eval Model.C16 Model.C18.", "C18.case", "C18.check")
+		// (Model/C18.v used to alias C16.case; since 2a87b84 it wraps it, and C17 never needed more than C16's cases)
+		c.Model("From PlzV Require Import Model.C16_Syntax Model.C16_Eval Model.C16.", "C16.case", "C16.check")
 		c.Rule("scenarios = a generated build_defs file (nested list, flat list, filtered comprehension, dict with list and dict members, a function returning a list " +
 			"literal, a function with a list default) and two generated packages of 1-5 actions each on what they import (alias + index assignment, loops over nested " +
 			"lists, sorted/reversed of inner lists, +, +=, + [] and += [] followed by a write, + through a function of the defs file, dict members, direct assignment that must fail), each followed by reads of everything; run on the real " +
@@ -363,6 +366,9 @@ func main() {
 				map[string]any{"order": "b", "files": srcs, "b": alone.Final, "errs": []string{alone.Err}}, "b:"+key, false)
 		}
 		preloadStream(c)
+		freshStream(c)
+		privateStream(c)
+		spellingStream(c)
 	})
 }
 
